@@ -237,6 +237,36 @@ int main(int argc, char** argv) {
 				char buf[200];
 				std::snprintf(buf, sizeof buf, "P tree=%.17g,%.17g simple=%.17g,%.17g", a(0), a(1), b(0), b(1));
 				out << buf;
+				RealMatrix pat(1, w->dim); row(pat, 0) = q;
+				for (int be = 0; be < 2; ++be) {
+					std::vector<KeyValuePair<double, RealVector> > r = be ? snn.getNeighbors(pat, k) : tnn.getNeighbors(pat, k);
+					out << (be ? " sn=" : " tn=");
+					for (std::size_t i = 0; i < r.size(); ++i) out << (i ? ";" : "") << g17(r[i].key) << ":" << g17(r[i].value(0)) << "," << g17(r[i].value(1));
+				}
+			} else if (cmd == "C") {
+				std::size_t k, nc; int wt; is >> k >> wt >> nc;
+				RealVector q(w->dim); for (std::size_t d = 0; d < w->dim; ++d) { long h; is >> h; q(d) = 0.5 * (double)h; }
+				std::vector<unsigned int> lab(w->n);
+				for (std::size_t i = 0; i < w->n; ++i) lab[i] = (unsigned int)((5 * i + 2) % nc);
+				LabeledData<RealVector, unsigned int> ds = createLabeledDataFromRange(w->pts, lab);
+				TreeNearestNeighbors<RealVector, unsigned int> tnn(ds, w->tree.get());      // same points, same order as the tree's data set
+				AbstractKernelFunction<RealVector> const* metric = (w->kind == "khc2") ? (AbstractKernelFunction<RealVector> const*)w->poly.get() : (AbstractKernelFunction<RealVector> const*)&w->lin;
+				SimpleNearestNeighbors<RealVector, unsigned int> snn(ds, metric);
+				NearestNeighborModel<RealVector, unsigned int> mt(&tnn, (unsigned int)k), ms(&snn, (unsigned int)k);
+				mt.setDistanceWeightType(wt == 0 ? NearestNeighborModel<RealVector, unsigned int>::UNIFORM : NearestNeighborModel<RealVector, unsigned int>::ONE_OVER_DISTANCE);
+				ms.setDistanceWeightType(wt == 0 ? NearestNeighborModel<RealVector, unsigned int>::UNIFORM : NearestNeighborModel<RealVector, unsigned int>::ONE_OVER_DISTANCE);
+				RealMatrix pat(1, w->dim); row(pat, 0) = q;
+				out << "C";
+				for (int be = 0; be < 2; ++be) {
+					NearestNeighborModel<RealVector, unsigned int>& m = be ? ms : mt;
+					unsigned int cls = m(q);
+					RealVector sc = m.decisionFunction()(q);
+					std::vector<KeyValuePair<double, unsigned int> > r = be ? snn.getNeighbors(pat, k) : tnn.getNeighbors(pat, k);
+					out << (be ? " simple=" : " tree=") << cls << ";";
+					for (std::size_t i = 0; i < sc.size(); ++i) out << (i ? "," : "") << g17(sc(i));
+					out << ";";
+					for (std::size_t i = 0; i < r.size(); ++i) out << (i ? "," : "") << g17(r[i].key) << ":" << r[i].value;
+				}
 			} else out << "?";
 		} catch (shark::Exception const& e) { out.str(""); out << cmd << " EXC"; }
 		catch (std::exception const& e) { out.str(""); out << cmd << " STDEXC"; }
